@@ -461,6 +461,8 @@ func TestCheck(t *testing.T) {
 		return
 	}
 
+	t.Run("many-modules", func(t *testing.T) { manyModules(t, rec) })
+
 	positive := func(name string, n int, salt int64, forceBuiltin bool) {
 		ev.RapidCheck(t, name, n, salt, func(rt *rapid.T) {
 			g := genPositive(rt, forceBuiltin)
